@@ -47,10 +47,10 @@ CLAIMED = {
         'least positive number of steps of (operation i, then operation j) leading from d back to d, None out of range or where the walk leaves the defined operations. '
         'Orbit indices separate orbits (equal index only on one (i,i+1)-orbit; index ranges of different i disjoint). The trait DSym with the laws v constant on orbits and '
         'm = r*v for whatever n is the least return time, proved for both implementors; the conversions as_dset, as_dsym, as_partial_dsym (real bodies): same operations, '
-        'v = 1 resp. the same v and the same m. orbit_reps_2d lists exactly one representative of every (i,j)-orbit (existence and uniqueness). is_loopless (no operation fixes a chamber), orientations_match, is_weakly_oriented (every edge passes the test against '
+        'v = 1 resp. the same v and the same m. orbit_reps_2d lists exactly one representative of every (i,j)-orbit (existence and uniqueness). PartialDSet::set is verified twice (R21: also with its argument checks as guards: every ACCEPTED call keeps the involution invariant) and PartialDSet::grow adds chambers with every operation undefined. is_loopless (no operation fixes a chamber), orientations_match, is_weakly_oriented (every edge passes the test against '
         'the vector partial_orientation returns) and is_oriented (their conjunction) are verified bodies.',
    note='Trusted: Verus+Z3, vstd, <[T]>::fill spec, derived Clone; walk(e,[i,j]) by its std semantics. Not decided by contracts (bounded stand-in): '
-        'Traversal/orbits/orbit_reps/is_connected/partial_orientation (stateful iterator over BTreeMap/VecDeque/HashSet; is_weakly_oriented is proved relative to the vector partial_orientation returns), PartialDSet::grow; termination of orbit loops; '
+        'Traversal/orbits/orbit_reps/is_connected/partial_orientation (stateful iterator over BTreeMap/VecDeque/HashSet; is_weakly_oriented is proved relative to the vector partial_orientation returns); termination of orbit loops; '
         'the lift of the return-time statement from orbit representatives to every chamber is stated as spec-level lemmas only.',
    ref='5 C02', technique=TECH),
  'C01': dict(
